@@ -159,6 +159,18 @@ def inputs_c01_c02(tier, rng):
         for n in (1, 2, 5, 20, 60):
             out.append(("nest", "fn f() { " + (op + " ") * n))
             out.append(("nest-closed", "fn f() { " + (op + " ") * n + "} " * n))
+    # well-formed deep nesting of every bracketed expression form (single and mixed), followed by another definition
+    FORMS = [("[", "]"), ("#(", ")"), ("f(", ")"), ("{ ", " }"), ("fn() { ", " }"), ("!", ""), ("-", ""), ("<<", ">>"), ("[1, ", "]"), ("case x { _ -> ", " }")]
+    for n in (3, 30, 63, 64, 65, 66, 100, 130, 150):
+        for (o, c) in FORMS:
+            out.append(("deep-wellformed", "pub fn d() {\n  " + o * n + "1" + c * n + "\n}\n\npub fn after() {\n  2\n}\n"))
+        mix = [rng.choice(FORMS) for _ in range(n)]
+        out.append(("deep-wellformed", "pub fn d() {\n  " + "".join(o for o, _ in mix) + "1" + "".join(c for _, c in reversed(mix)) + "\n}\n\nconst after = 2\n"))
+    for n in (30, 64, 70, 150):
+        for (o, c) in [("[", "]"), ("#(", ")"), ("X(", ")"), ("[_, ..", "]")]:
+            out.append(("deep-wellformed", "pub fn p(v) {\n  case v {\n    " + o * n + "_" + c * n + " -> 1\n  }\n}\npub fn after() { 2 }\n"))
+        for (o, c) in [("List(", ")"), ("#(", ")"), ("fn() -> ", "")]:
+            out.append(("deep-wellformed", "pub fn t(v: " + o * n + "Int" + c * n + ") { v }\npub fn after() { 2 }\n"))
     # exotic characters at the start, at the end, alone, doubled and inside texts
     samples = [t for t in corpus() if len(t) < 1500][:6] + ["pub fn f(x) {\n  x\n}\n", "import a\nconst c = \"s\"\n", ""]
     for ch in EXOTIC:
